@@ -474,6 +474,14 @@ def getattr_(it, base, attr, node, fr):
         if attr == "size":
             return Val(call("size", base.term))
         if attr == "T":
+            if base.space is not None and not getattr(base, "transposed_of", None):
+                # a per-row (N, k) value seen column-wise: element-wise the same value; iterating it walks over its k columns
+                t_ = Val(base.term, space=base.space, pos_of=base.pos_of, series=base.series)
+                for k_, v_ in base.__dict__.items():
+                    if k_ not in t_.__dict__:
+                        t_.__dict__[k_] = v_
+                t_.transposed_of = base
+                return t_
             return base
         return Method(base, attr)
     if isinstance(base, Rot):
@@ -873,6 +881,11 @@ def val_getitem(it, v, idx, node):
         if v.pos_of is not None:
             r.pos_of = v.pos_of
             r.scalar_pos = True
+        if getattr(v, "iter_kind", None) == "groupby" and getattr(v, "of_frame", None) is not None:
+            # frame.groupby(keys)[column]: the groups of one column -- still the rows and labels of the grouped table
+            r.iter_kind = "groupby-column"
+            r.of_frame = v.of_frame
+            r.colname = pyval(idx) if isinstance(pyval(idx), str) else None
         return r
     # mask / positions
     r = Val(v.term, space=index_space(it, v, idx, node), pos_of=v.pos_of)
@@ -1411,6 +1424,12 @@ def generic_element(it, iterable, node):
     ln = getattr(node, "lineno", 0)
     if getattr(iterable, "elem", None) is not None and isinstance(iterable, Unk):
         return iterable.elem  # the per-element value of a comprehension result
+    if isinstance(iterable, Val) and getattr(iterable, "transposed_of", None) is not None:
+        # for col in x.T: one column of the per-row (N, k) value at a time -- x[:, j] for a running j (the same j for every array walked in one loop)
+        v_ = iterable.transposed_of
+        r_ = Val(call("column", v_.term, call("each_col", const(ln))), space=v_.space, pos_of=v_.pos_of)
+        r_.column_of = v_
+        return r_
     if isinstance(iterable, Val) and (iterable.series or getattr(iterable, "of_frame", None) is not None) \
             and getattr(iterable, "iter_kind", None) is None and iterable.pos_of is None:
         e = Val(iterable.term)  # element of a column = the row's value (per-row view)
@@ -1419,7 +1438,10 @@ def generic_element(it, iterable, node):
     if isinstance(iterable, Val) or isinstance(iterable, Unk):
         e = Val(call("each", to_term(iterable)))
         e.each_of = iterable
-        if getattr(iterable, "pos_of", None) is not None:
+        if getattr(iterable, "pos_of", None) is not None and getattr(iterable, "nested_lists", False):
+            e.pos_of = iterable.pos_of
+            e.list_of_positions = True  # one list of positions per query point: the element is a list (its truth value = "any hit at all")
+        elif getattr(iterable, "pos_of", None) is not None:
             e.pos_of = iterable.pos_of
             e.scalar_pos = True
         if getattr(iterable, "iter_kind", None) == "iterrows":
